@@ -1218,6 +1218,12 @@ func (bc *BlockChain) insertChain2(chain types.Blocks, try int) (int, []interfac
 			if err != nil {
 				return i, events, coalescedLogs, err
 			}
+			// The parent's state is available now: run the body checks that
+			// ValidateBody skipped when it reported the pruned ancestor.
+			if err := bc.Validator().ValidateBody(block); err != nil {
+				bc.reportBlock(block, nil, err)
+				return i, events, coalescedLogs, err
+			}
 
 		case err != nil:
 			bc.reportBlock(block, nil, err)
